@@ -654,6 +654,26 @@ def rule_reloc_table(ctx) -> None:
                 probs.append(f"application of {app_len} bytes + {len(imgs)} entries: parsed (destination, image length) {[(hex(d_), len(i_)) for d_, i_ in got]}, expected {[(hex(d_), len(i_)) for d_, i_ in want]}")
             elif t2.__dict__["start_address"] != app_len:
                 probs.append(f"application of {app_len} bytes + {len(imgs)} entries: start address {t2.__dict__['start_address']} (the appended images begin at {app_len})")
+    # the lengths the relocation-table mixin reports (they feed the header words: total length, certificate block offset) are the
+    # length of what the table exports - evaluated on the same model tables, for every method of the mixin named mix_len / mix_app_len
+    rk = ctx.cls(MIX, "Mbi_MixinRelocTable")
+    lprobs, ln = [], 0
+    calls2 = ctx.model_calls(cv, classes={"MultipleImageTable": tcls, "MultipleImageEntry": ecls, "Mbi_MixinRelocTable": rk}, max_depth=8)
+    for mname in ("mix_len", "mix_app_len"):
+        lf = ctx.own(MIX, "Mbi_MixinRelocTable", mname)
+        for imgs in ([b"\xA5" * 20], [b"\xA5" * 20, b"\x5A" * 7], [b"\x11" * 3, b"\x22" * 8, b"\x33" * 5], None):
+            table = None if imgs is None else Obj(_cls=tcls, _entries=tuple(mk_entry(im, 0x80000 + 0x100 * i) for i, im in enumerate(imgs)), start_address=0)
+            try:
+                want_len = 0 if table is None else len(_oe.Evaluator({"self": table, "start_addr": 0}, ctx.fold_sym(exp), opaque_return=False, call_value=calls).run(A.body_of(exp.node)).value)
+                out = _oe.Evaluator({"self": Obj(_cls=rk, app_table=table)}, ctx.fold_sym(lf), opaque_return=False, call_value=calls2).run(A.body_of(lf.node))
+            except _oe.Unsupported as ex:
+                raise AnalysisError(f"C01.reloc-length: {lf.qual} left the fragment: {ex}")
+            ln += 1
+            if out.kind != "return" or out.value != want_len:
+                lprobs.append(f"{mname} with images of {[len(i_) for i_ in imgs] if imgs else None} bytes: {out.value if out.kind == 'return' else out.kind}, the table exports {want_len} bytes")
+    ctx.chk.exhaustive_rules.add("C01.reloc-length")
+    ctx.chk.decide(not lprobs, "C01.reloc-length", f"{MIX}::Mbi_MixinRelocTable.mix_len/mix_app_len", f"the reported lengths equal the length of the exported table ({ln} models, unaligned image sizes)",
+                   "; ".join(lprobs[:2]), "len(self.app_table.export(0))", A.loc(MIX, rk.node))
     ctx.chk.decide(not probs, "C01.reloc-table", f"{CLS}::MultipleImageTable export<->parse", f"entries (destination, image, order) and the start of the appended images come back from the exported bytes ({n} models: 1-3 entries, unaligned image sizes, with and without a leading application)",
                    "; ".join(probs[:2]), "", A.loc(CLS, par.node))
 
